@@ -26,7 +26,7 @@ FLOORS = {"quick": {"departures_checked": 30000, "waited_for_tokens": 5000, "cap
                        "oversize_packets": 10000, "pair_inequalities": 4000000, "peak_spacings": 100000,
                        "colours_checked": 200000, "red": 20000, "yellow": 20000, "green": 20000,
                        "green_pairs": 1000000, "must_be_green": 6000, "zero_peak_bucket_heads": 1000}}
-KEYS = tuple(FLOORS["quick"].keys()) + ("tb_cases", "trtb_cases", "exact_cases", "float_cases", "fast_cases", "precoloured_packets", "same_object_again", "debug_tracing_cases", "zero_size_packets", "phased_cases", "parameter_reassignments")
+KEYS = tuple(FLOORS["quick"].keys()) + ("tb_cases", "trtb_cases", "exact_cases", "float_cases", "fast_cases", "precoloured_packets", "same_object_again", "debug_tracing_cases", "zero_size_packets", "phased_cases", "parameter_reassignments", "payload_length_differs_from_size", "put_before_out_connected")
 # floors for the situations added with the later rounds of seeded changes (evidence that they were really exercised)
 FLOORS["quick"].update({'same_object_again': 2500})
 FLOORS["thorough"].update({'same_object_again': 12500})
@@ -34,6 +34,8 @@ FLOORS["quick"].update({'debug_tracing_cases': 150, 'zero_size_packets': 2000})
 FLOORS["thorough"].update({'debug_tracing_cases': 750, 'zero_size_packets': 10000})
 FLOORS["quick"].update({'parameter_reassignments': 100})
 FLOORS["thorough"].update({'parameter_reassignments': 500})
+FLOORS["quick"].update({'payload_length_differs_from_size': 2000, 'put_before_out_connected': 150})
+FLOORS["thorough"].update({'payload_length_differs_from_size': 10000, 'put_before_out_connected': 750})
 
 
 def plan(tier):
@@ -89,6 +91,14 @@ def gen_case(rng, i):
         if rng.random() < 0.25:
             a["precolour"] = rng.choice(["green", "yellow", "red"])
     case = {"flavour": flavour, "arrivals": arr, "fast": fast, "debug": rng.random() < 0.15}       # (tracing switched on changes nothing)
+    if rng.random() < 0.2:
+        # packets that carry application data: the shaper charges the packet's size, whatever the payload's length
+        for a in arr:
+            if not a.get("again") and rng.random() < 0.7:
+                a["payload_len"] = rng.choice([0, 1, max(1, a["size"] // 2), a["size"], 2 * a["size"] + 3, 4000])
+    if rng.random() < 0.15:
+        # the first packets are handed in while the element is not yet connected to its next hop (wired before the run starts)
+        case["prewire"] = [rng.choice(sizes) for _ in range(rng.randint(1, 4))]
     if not fast and rng.random() < 0.25:
         # zero-length packets (end-of-stream markers) in between
         for a in arr:
@@ -155,8 +165,11 @@ def run_case(case, stats):
         stats["trtb_cases"] += 1
     stats[case["flavour"] + "_cases"] += 1
     sink = net.recorder("sink")
-    el.out = sink
     net.tap_put(el, "tb")
+    for k, size in enumerate(case.get("prewire") or []):
+        el.put(net.make_packet(0, size, 9000 + k))
+        stats["put_before_out_connected"] += 1
+    el.out = sink
     cols_at_out = []
     oput = sink.put
 
@@ -171,6 +184,8 @@ def run_case(case, stats):
             stats["precoloured_packets"] += 1
         if a.get("again"):
             stats["same_object_again"] += 1
+        elif "payload_len" in a and a["payload_len"] != a["size"]:
+            stats["payload_length_differs_from_size"] += 1
     for d in (0, 1):
         mine = [a for a in case["arrivals"] if a.get("drv", 0) % 2 == d]
         if mine:
